@@ -27,5 +27,15 @@ def bounded(report, name, bound, cases, fails, kind='e2e', exhaustive=False):
         report.violations.append({'what': '%s: %s' % (name, f.get('detail')), 'replay': path, 'no_input': False})
 
 
-def known_or_violation(report, name, fails, known_match):
-    pass
+def known_e2e(report, fid, still_fails, witness, what):
+    """ a finding decided by a concrete formula: listed in known_findings.json -> KNOWN-FINDING while it still fails;
+        not listed -> an ordinary violation """
+    from pyvc.runner import load_known_findings, write_replay
+    if not still_fails:
+        return
+    listed = [f for f in load_known_findings() if f.get('id') == fid and f.get('property') == report.prop and not f.get('fixed')]
+    if listed:
+        report.known.append({'finding': listed[0], 'witness': witness})
+    else:
+        path = write_replay(report.prop, fid, {'kind': 'e2e', 'property': report.prop, 'obligation': fid, 'formula': witness, 'detail': what})
+        report.violations.append({'what': what, 'replay': path, 'no_input': False})
